@@ -11,6 +11,7 @@ import Rawr.Proofs.GenCastle5
   `prelude_rpinned`, `prelude_pinned`, `prelude_bxrays`, `prelude_vxrays`, `prelude_hxrays`,
   `prelude_rxrays`.
 -/
+set_option linter.unusedSimpArgs false
 namespace Rawr.Att
 open Spec
 
@@ -152,5 +153,258 @@ theorem rayHit_unique {B : Board} {k : Nat} {d : Int × Int} (hd : GoodDir d) {a
     have := ca jb hjb h
     rw [rayHit_sq fb rb, isNone_iff] at this
     exact ob this
+
+
+/-! ### one `pinStep` -/
+
+/-- the own piece on `f` is the first blocker on the ray `d` from `k`, and the first blocker behind it
+(same direction) is in `chk`. -/
+def PinAlong (B : Board) (us chk : BB) (k : Nat) (d : Int × Int) (f : Nat) : Prop :=
+  RayHit B k d f ∧ us.getLsbD f = true ∧ ∃ s, RayHit B f d s ∧ chk.getLsbD s = true
+
+theorem pinStep_mem {B : Board} {occ : BB} (ho : OccRep B occ) {d : Int × Int} (hd : GoodDir d)
+    {us chk : BB} (hus : ∀ x, us.getLsbD x = true → B x ≠ none) {k : Nat} (hk : k < 64)
+    {rayFn : Nat → BB → BB} (hfn : ∀ s, s < 64 → rayFn s occ = setBB (walk d.1 d.2 s occ.getLsbD))
+    (acc : BB × BB) (x : Nat) :
+    ((pinStep rayFn (if chk.isOcc then rayFn k occ else 0#64) us occ chk acc).1.getLsbD x = true ↔
+        acc.1.getLsbD x = true ∨ PinAlong B us chk k d x) ∧
+    ((pinStep rayFn (if chk.isOcc then rayFn k occ else 0#64) us occ chk acc).2.getLsbD x = true ↔
+        acc.2.getLsbD x = true ∨
+          ∃ f, PinAlong B us chk k d f ∧ x < 64 ∧ (RayHit B k d x ∨ RayHit B f d x)) := by
+  have hx64 : ∀ {X : BB} {y : Nat}, X.getLsbD y = true → y < 64 := fun h => BitVec.lt_of_getLsbD h
+  have pinFacts : ∀ f, PinAlong B us chk k d f →
+      chk.isOcc = true ∧ (rayFn k occ &&& us).isOcc = true ∧ lsb (rayFn k occ &&& us) = f ∧
+      (rayFn f occ &&& chk).isOcc = true := by
+    rintro f ⟨hr, hu, s, hs, hc⟩
+    have f64 := hx64 hu
+    have s64 := hx64 hc
+    have hmem : (rayFn k occ &&& us).getLsbD f = true := by
+      rw [BitVec.getLsbD_and, hu, Bool.and_true, hfn k hk]; exact (ray_mem ho hd hk f).mpr ⟨f64, hr⟩
+    have huniq : ∀ t, t < 64 → (rayFn k occ &&& us).getLsbD t = true → t = f := by
+      intro t ht hb
+      rw [BitVec.getLsbD_and, Bool.and_eq_true, hfn k hk] at hb
+      exact rayHit_unique hd ((ray_mem ho hd hk t).mp hb.1).2 hr (hus t hb.2) (hus f hu)
+    obtain ⟨h1, h2⟩ := lsb_eq_of_unique f64 hmem huniq
+    refine ⟨(isOcc_iff _).mpr ⟨s, s64, hc⟩, h1, h2, (isOcc_iff _).mpr ⟨s, s64, ?_⟩⟩
+    rw [BitVec.getLsbD_and, hc, Bool.and_true, hfn f f64]; exact (ray_mem ho hd f64 s).mpr ⟨s64, hs⟩
+  unfold pinStep
+  cases hg : chk.isOcc
+  · simp only [Bool.false_eq_true, if_false, BitVec.zero_and, isOcc_zero]
+    refine ⟨⟨Or.inl, ?_⟩, ⟨Or.inl, ?_⟩⟩
+    · rintro (h | h)
+      · exact h
+      · have := (pinFacts _ h).1; rw [hg] at this; cases this
+    · rintro (h | ⟨f, h, _⟩)
+      · exact h
+      · have := (pinFacts _ h).1; rw [hg] at this; cases this
+  · simp only [if_true]
+    cases h1 : (rayFn k occ &&& us).isOcc
+    · simp only [Bool.false_eq_true, if_false]
+      refine ⟨⟨Or.inl, ?_⟩, ⟨Or.inl, ?_⟩⟩
+      · rintro (h | h)
+        · exact h
+        · have := (pinFacts _ h).2.1; rw [h1] at this; cases this
+      · rintro (h | ⟨f, h, _⟩)
+        · exact h
+        · have := (pinFacts _ h).2.1; rw [h1] at this; cases this
+    · simp only [if_true]
+      obtain ⟨q64, hq⟩ := lsb_mem_of_isOcc h1
+      have pinFacts' : ∀ f, PinAlong B us chk k d f →
+          f = lsb (rayFn k occ &&& us) ∧ (rayFn f occ &&& chk).isOcc = true :=
+        fun f h => ⟨(pinFacts f h).2.2.1.symm, (pinFacts f h).2.2.2⟩
+      generalize lsb (rayFn k occ &&& us) = q at *
+      rw [BitVec.getLsbD_and, Bool.and_eq_true, hfn k hk] at hq
+      have hkq : RayHit B k d q := ((ray_mem ho hd hk q).mp hq.1).2
+      cases h2 : (rayFn q occ &&& chk).isOcc
+      · simp only [Bool.false_eq_true, if_false]
+        refine ⟨⟨Or.inl, ?_⟩, ⟨Or.inl, ?_⟩⟩
+        · rintro (h | h)
+          · exact h
+          · obtain ⟨e, h'⟩ := pinFacts' _ h; subst e; rw [h2] at h'; cases h'
+        · rintro (h | ⟨f, h, _⟩)
+          · exact h
+          · obtain ⟨e, h'⟩ := pinFacts' _ h; subst e; rw [h2] at h'; cases h'
+      · simp only [if_true]
+        obtain ⟨s, s64, hs⟩ := (isOcc_iff _).mp h2
+        rw [BitVec.getLsbD_and, Bool.and_eq_true, hfn q q64] at hs
+        have hpin : PinAlong B us chk k d q :=
+          ⟨hkq, hq.2, s, ((ray_mem ho hd q64 s).mp hs.1).2, hs.2⟩
+        constructor
+        · rw [BitVec.getLsbD_or, Bool.or_eq_true, getLsbD_bit]
+          constructor
+          · rintro (h | h)
+            · exact Or.inl h
+            · simp only [Bool.and_eq_true, decide_eq_true_eq] at h
+              right; rw [h.2]; exact hpin
+          · rintro (h | h)
+            · exact Or.inl h
+            · right
+              have := (pinFacts' _ h).1
+              simp [this, q64]
+        · rw [BitVec.getLsbD_or, BitVec.getLsbD_or, Bool.or_eq_true, Bool.or_eq_true, hfn q q64, hfn k hk,
+            ray_mem ho hd q64, ray_mem ho hd hk]
+          constructor
+          · rintro (h | ⟨h64, h⟩ | ⟨h64, h⟩)
+            · exact Or.inl h
+            · exact Or.inr ⟨q, hpin, h64, Or.inr h⟩
+            · exact Or.inr ⟨q, hpin, h64, Or.inl h⟩
+          · rintro (h | ⟨f, h, h64, h'⟩)
+            · exact Or.inl h
+            · have := (pinFacts' _ h).1
+              subst this
+              rcases h' with h' | h'
+              · exact Or.inr (Or.inr ⟨h64, h'⟩)
+              · exact Or.inr (Or.inl ⟨h64, h'⟩)
+
+/-! ### the pin sets of the prelude -/
+
+theorem prelude_pins_eq (p : Position) :
+    let k := lsb (p.p5 &&& p.c0)
+    let g (c : BB) (r : BB) : BB := if c.isOcc then r else 0#64
+    let b4 := pinStep raySW (g (themBQ p) (raySW k p.occ)) p.c0 p.occ (themBQ p)
+      (pinStep raySE (g (themBQ p) (raySE k p.occ)) p.c0 p.occ (themBQ p)
+        (pinStep rayNW (g (themBQ p) (rayNW k p.occ)) p.c0 p.occ (themBQ p)
+          (pinStep rayNE (g (themBQ p) (rayNE k p.occ)) p.c0 p.occ (themBQ p) (0#64, 0#64))))
+    let v2 := pinStep rayS (g (themRQ p) (rayS k p.occ)) p.c0 p.occ (themRQ p)
+      (pinStep rayN (g (themRQ p) (rayN k p.occ)) p.c0 p.occ (themRQ p) (0#64, 0#64))
+    let h2 := pinStep rayW (g (themRQ p) (rayW k p.occ)) p.c0 p.occ (themRQ p)
+      (pinStep rayE (g (themRQ p) (rayE k p.occ)) p.c0 p.occ (themRQ p) (0#64, 0#64))
+    (prelude p).bpinned = b4.1 ∧ (prelude p).bxrays = b4.2 ||| (p.p5 &&& p.c0) ∧
+    (prelude p).vpinned = v2.1 ∧ (prelude p).vxrays = v2.2 ∧
+    (prelude p).hpinned = h2.1 ∧ (prelude p).hxrays = h2.2 ∧
+    (prelude p).rxrays = h2.2 ||| v2.2 ∧ (prelude p).rpinned = v2.1 ||| h2.1 ∧
+    (prelude p).pinned = b4.1 ||| (v2.1 ||| h2.1) :=
+  ⟨rfl, rfl, rfl, rfl, rfl, rfl, rfl, rfl, rfl⟩
+
+section pins
+variable {p : Position} (hV : ValidPos p = true)
+include hV
+
+theorem own_ne_none (x : Nat) (h : p.c0.getLsbD x = true) : relBoard p x ≠ none :=
+  own_occupied (valid_consistent hV) (BitVec.lt_of_getLsbD h) h
+
+/-- `x ∈ bpinned`: an own piece, first on a diagonal ray from the king, with an enemy bishop or queen
+next behind it. -/
+theorem prelude_bpinned (x : Nat) : (prelude p).bpinned.getLsbD x = true ↔
+    ∃ d ∈ diag, PinAlong (relBoard p) p.c0 (themBQ p) (lsb (p.p5 &&& p.c0)) d x := by
+  have ho := occRep_rel (valid_consistent hV)
+  have hk := (kingFacts hV).k64
+  have hus := own_ne_none hV
+  rw [(prelude_pins_eq p).1]
+  dsimp only
+  rw [(pinStep_mem ho good_SW hus hk (fun s hs => raySW_eq_walk s hs _) _ x).1,
+    (pinStep_mem ho good_SE hus hk (fun s hs => raySE_eq_walk s hs _) _ x).1,
+    (pinStep_mem ho good_NW hus hk (fun s hs => rayNW_eq_walk s hs _) _ x).1,
+    (pinStep_mem ho good_NE hus hk (fun s hs => rayNE_eq_walk s hs _) _ x).1]
+  simp only [BitVec.getLsbD_zero, Bool.false_eq_true, false_or, diag_eq, List.mem_cons,
+    List.not_mem_nil, or_false, exists_eq_or_imp, exists_eq_left]
+  simp only [or_assoc, or_comm, or_left_comm]
+
+theorem prelude_vpinned (x : Nat) : (prelude p).vpinned.getLsbD x = true ↔
+    ∃ d ∈ [dN, dS], PinAlong (relBoard p) p.c0 (themRQ p) (lsb (p.p5 &&& p.c0)) d x := by
+  have ho := occRep_rel (valid_consistent hV)
+  have hk := (kingFacts hV).k64
+  have hus := own_ne_none hV
+  rw [(prelude_pins_eq p).2.2.1]
+  dsimp only
+  rw [(pinStep_mem ho good_S hus hk (fun s hs => rayS_eq_walk s hs _) _ x).1,
+    (pinStep_mem ho good_N hus hk (fun s hs => rayN_eq_walk s hs _) _ x).1]
+  simp only [BitVec.getLsbD_zero, Bool.false_eq_true, false_or, List.mem_cons,
+    List.not_mem_nil, or_false, exists_eq_or_imp, exists_eq_left]
+
+theorem prelude_hpinned (x : Nat) : (prelude p).hpinned.getLsbD x = true ↔
+    ∃ d ∈ [dE, dW], PinAlong (relBoard p) p.c0 (themRQ p) (lsb (p.p5 &&& p.c0)) d x := by
+  have ho := occRep_rel (valid_consistent hV)
+  have hk := (kingFacts hV).k64
+  have hus := own_ne_none hV
+  rw [(prelude_pins_eq p).2.2.2.2.1]
+  dsimp only
+  rw [(pinStep_mem ho good_W hus hk (fun s hs => rayW_eq_walk s hs _) _ x).1,
+    (pinStep_mem ho good_E hus hk (fun s hs => rayE_eq_walk s hs _) _ x).1]
+  simp only [BitVec.getLsbD_zero, Bool.false_eq_true, false_or, List.mem_cons,
+    List.not_mem_nil, or_false, exists_eq_or_imp, exists_eq_left]
+
+omit hV in
+theorem prelude_rpinned_eq (p : Position) : (prelude p).rpinned = (prelude p).vpinned ||| (prelude p).hpinned := rfl
+omit hV in
+theorem prelude_pinned_eq (p : Position) : (prelude p).pinned = (prelude p).bpinned ||| (prelude p).rpinned := rfl
+omit hV in
+theorem prelude_rxrays_eq (p : Position) : (prelude p).rxrays = (prelude p).hxrays ||| (prelude p).vxrays := rfl
+
+theorem prelude_rpinned (x : Nat) : (prelude p).rpinned.getLsbD x = true ↔
+    ∃ d ∈ orth, PinAlong (relBoard p) p.c0 (themRQ p) (lsb (p.p5 &&& p.c0)) d x := by
+  rw [prelude_rpinned_eq, BitVec.getLsbD_or, Bool.or_eq_true, prelude_vpinned hV, prelude_hpinned hV]
+  simp only [orth_eq, List.mem_cons, List.not_mem_nil, or_false, exists_eq_or_imp, exists_eq_left]
+  simp only [or_assoc, or_comm, or_left_comm]
+
+/-- the squares of one pin line: from the king (exclusive) to the pinner (inclusive). -/
+def PinLine (B : Board) (us chk : BB) (k : Nat) (d : Int × Int) (x : Nat) : Prop :=
+  ∃ f, PinAlong B us chk k d f ∧ x < 64 ∧ (RayHit B k d x ∨ RayHit B f d x)
+
+theorem prelude_bxrays (x : Nat) : (prelude p).bxrays.getLsbD x = true ↔
+    x = lsb (p.p5 &&& p.c0) ∨
+      ∃ d ∈ diag, PinLine (relBoard p) p.c0 (themBQ p) (lsb (p.p5 &&& p.c0)) d x := by
+  have ho := occRep_rel (valid_consistent hV)
+  have hk := (kingFacts hV).k64
+  have hus := own_ne_none hV
+  have hbit : p.p5 &&& p.c0 = bit (lsb (p.p5 &&& p.c0)) := by
+    have hk1 := valid_kings hV false
+    simp only [Position.side, Bool.false_eq_true, if_false] at hk1
+    rw [bit_lsb_of_count_le_one _ (Nat.le_of_eq hk1)]
+  rw [(prelude_pins_eq p).2.1]
+  dsimp only
+  rw [BitVec.getLsbD_or, Bool.or_eq_true,
+    (pinStep_mem ho good_SW hus hk (fun s hs => raySW_eq_walk s hs _) _ x).2,
+    (pinStep_mem ho good_SE hus hk (fun s hs => raySE_eq_walk s hs _) _ x).2,
+    (pinStep_mem ho good_NW hus hk (fun s hs => rayNW_eq_walk s hs _) _ x).2,
+    (pinStep_mem ho good_NE hus hk (fun s hs => rayNE_eq_walk s hs _) _ x).2]
+  have e : (p.p5 &&& p.c0).getLsbD x = true ↔ x = lsb (p.p5 &&& p.c0) := by
+    constructor
+    · intro h; rw [hbit, getLsbD_bit] at h
+      simp only [Bool.and_eq_true, decide_eq_true_eq] at h; exact h.2
+    · intro h; rw [hbit, getLsbD_bit, ← h]; simp only [Bool.and_eq_true, decide_eq_true_eq]
+      exact ⟨h ▸ hk, trivial⟩
+  rw [e]
+  simp only [BitVec.getLsbD_zero, Bool.false_eq_true, false_or, diag_eq, List.mem_cons,
+    List.not_mem_nil, or_false, exists_eq_or_imp, exists_eq_left, PinLine]
+  simp only [or_assoc, or_comm, or_left_comm]
+
+theorem prelude_vxrays (x : Nat) : (prelude p).vxrays.getLsbD x = true ↔
+    ∃ d ∈ [dN, dS], PinLine (relBoard p) p.c0 (themRQ p) (lsb (p.p5 &&& p.c0)) d x := by
+  have ho := occRep_rel (valid_consistent hV)
+  have hk := (kingFacts hV).k64
+  have hus := own_ne_none hV
+  rw [(prelude_pins_eq p).2.2.2.1]
+  dsimp only
+  rw [(pinStep_mem ho good_S hus hk (fun s hs => rayS_eq_walk s hs _) _ x).2,
+    (pinStep_mem ho good_N hus hk (fun s hs => rayN_eq_walk s hs _) _ x).2]
+  simp only [BitVec.getLsbD_zero, Bool.false_eq_true, false_or, List.mem_cons,
+    List.not_mem_nil, or_false, exists_eq_or_imp, exists_eq_left, PinLine]
+
+theorem prelude_hxrays (x : Nat) : (prelude p).hxrays.getLsbD x = true ↔
+    ∃ d ∈ [dE, dW], PinLine (relBoard p) p.c0 (themRQ p) (lsb (p.p5 &&& p.c0)) d x := by
+  have ho := occRep_rel (valid_consistent hV)
+  have hk := (kingFacts hV).k64
+  have hus := own_ne_none hV
+  rw [(prelude_pins_eq p).2.2.2.2.2.1]
+  dsimp only
+  rw [(pinStep_mem ho good_W hus hk (fun s hs => rayW_eq_walk s hs _) _ x).2,
+    (pinStep_mem ho good_E hus hk (fun s hs => rayE_eq_walk s hs _) _ x).2]
+  simp only [BitVec.getLsbD_zero, Bool.false_eq_true, false_or, List.mem_cons,
+    List.not_mem_nil, or_false, exists_eq_or_imp, exists_eq_left, PinLine]
+
+theorem prelude_rxrays (x : Nat) : (prelude p).rxrays.getLsbD x = true ↔
+    ∃ d ∈ orth, PinLine (relBoard p) p.c0 (themRQ p) (lsb (p.p5 &&& p.c0)) d x := by
+  rw [prelude_rxrays_eq, BitVec.getLsbD_or, Bool.or_eq_true, prelude_vxrays hV, prelude_hxrays hV]
+  simp only [orth_eq, List.mem_cons, List.not_mem_nil, or_false, exists_eq_or_imp, exists_eq_left]
+  simp only [or_assoc, or_comm, or_left_comm]
+
+/-- `x ∈ pinned`: pinned on some line, by the matching kind of slider. -/
+theorem prelude_pinned (x : Nat) : (prelude p).pinned.getLsbD x = true ↔
+    (∃ d ∈ diag, PinAlong (relBoard p) p.c0 (themBQ p) (lsb (p.p5 &&& p.c0)) d x) ∨
+    (∃ d ∈ orth, PinAlong (relBoard p) p.c0 (themRQ p) (lsb (p.p5 &&& p.c0)) d x) := by
+  rw [prelude_pinned_eq, BitVec.getLsbD_or, Bool.or_eq_true, prelude_bpinned hV, prelude_rpinned hV]
+
+end pins
 
 end Rawr.Att
